@@ -249,6 +249,8 @@ def with_features(accs, feats):
         accs[attr] = {'kind': 'param', 'wire': '_' + attr, 'dt': dt, 'ro': False, 'const': NULL, 'init': init,
                       'lim': {'kind': 'none'}, 'hooks': [], 'drv': 'absent', 'ret': NULL, 'islimit': False,
                       'level': 'X', 'feature': f['name']}
+        if f['name'] == 'HasOffset':
+            accs[attr]['unit'] = '$'      # FloatRange(unit='$') in frappy/features.py
     return accs
 
 
